@@ -67,7 +67,7 @@ def model_env(m):
     return env
 
 
-def discharge(ob, allow_cvc5=True):
+def discharge(ob, allow_cvc5=True, scale=1):
     """returns dict(status = discharged | refuted | unknown, backend, seconds, detail, model)"""
     t0 = time.time()
     res = {'name': ob.name, 'kind': ob.kind, 'status': 'unknown', 'backend': '', 'detail': '', 'model': None}
@@ -91,7 +91,7 @@ def discharge(ob, allow_cvc5=True):
         rel = [f for f in ob.facts + ob.pc if gs & set(cert.symbols_of(f))]
         if len(rel) < len(ob.facts) + len(ob.pc):
             sr = z3.Solver()
-            sr.set('timeout', 3000)
+            sr.set('timeout', 3000 * scale)
             for f in rel:
                 sr.add(f)
             sr.add(z3.Not(ob.goal))
@@ -100,7 +100,7 @@ def discharge(ob, allow_cvc5=True):
                 return _fin(res, t0)
         # 0. a short SMT attempt settles the easy ones
         s0 = _solver(ob)
-        s0.set('timeout', 1500)
+        s0.set('timeout', 1500 * scale)
         if s0.check() == z3.unsat:
             res.update(status='discharged', backend='z3', detail='')
             return _fin(res, t0)
@@ -109,7 +109,7 @@ def discharge(ob, allow_cvc5=True):
             p = T.eq_poly(*ob.eq)
             if p is not None:
                 hyps = list(ob.hyps)
-                r = cert.prove_eq(p, hyps, ob.ctx.order, timeout=CERT_TIMEOUT_S, facts=ob.facts + ob.pc, hyp_main=ob.ctx.hyp_main)
+                r = cert.prove_eq(p, hyps, ob.ctx.order, timeout=CERT_TIMEOUT_S * scale, facts=ob.facts + ob.pc, hyp_main=ob.ctx.hyp_main)
                 res['backend'] = r['backend']
                 res['detail'] = r.get('detail', '')
                 if r['status'] == 'discharged':
@@ -121,6 +121,8 @@ def discharge(ob, allow_cvc5=True):
                     res['detail'] = 'certificate search: ' + r['detail']
         # 2. smt
         s = _solver(ob)
+        if scale != 1:
+            s.set('timeout', SMT_TIMEOUT_MS * scale)
         r = s.check()
         if r == z3.unsat:
             res.update(status='discharged', backend='z3', detail='')
@@ -134,7 +136,7 @@ def discharge(ob, allow_cvc5=True):
             res['detail'] = (res['detail'] + '; z3 model is not a real counterexample (symbols of the '
                              'trig/sqrt theory are under-axiomatised): ignored').strip('; ')
         if allow_cvc5:
-            r5 = _cvc5(s, SMT_TIMEOUT_MS)
+            r5 = _cvc5(s, SMT_TIMEOUT_MS * scale)
             if r5 == 'unsat':
                 res.update(status='discharged', backend='cvc5', detail='z3 unknown')
                 return _fin(res, t0)
